@@ -847,7 +847,8 @@ def make_dataset(tmp, init, k):
 
 def run_download(ck, tmp, mirrors, init, monitor=True):
     """One download() on a new object; returns the observation tuple comparable with dl_obs."""
-    urls = [f"https://mirror{i}.example.org/data/file{i}.arff" for i in range(len(mirrors))]
+    # host names whose alphabetical order is NOT the list order (the list order is the order of preference)
+    urls = [f"https://{'qdzkbwmfxa'[(7 * i + 3) % 10]}{i}-mirror.example.org/data/file{i}.arff" for i in range(len(mirrors))]
     ds = make_dataset(tmp, init, len(mirrors))
     ds.url = urls
     path = str(ds.file_path)
